@@ -20,10 +20,10 @@ from vt.props.C04 import exc_site, parse_fresh, print_generic
 ID = "C05"
 SHARDS = {"quick": 16, "thorough": 16}
 RULE = ("every verifying chunk of the .mlir corpus (tests/ and docs/, all dialects) printed with custom "
-        "assembly formats and re-parsed in a fresh context; plus variants of corpus modules obtained by "
-        "valid-by-check mutation (drop/add optional attributes and discardable attributes incl. reserved "
-        "names, set properties to declared defaults / other pool values, drop unused results' ops), "
-        "kept only if verify() accepts them. Oracle: canonical form of the re-parsed module equals the "
+        "assembly formats and re-parsed in a fresh context; plus a systematic sweep of single-point "
+        "variants: for the first instance of every custom-format op name in every chunk, add a "
+        "discardable attribute, drop each attribute, drop each property, set each property with a "
+        "declared default to that default -- kept only if verify() accepts the variant. Oracle: canonical form of the re-parsed module equals the "
         "original's and the generic round-trip's (modulo default-valued properties / inherent attrs in "
         "the attr-dict). Failures are attributed per op name by printing only that op in custom form. "
         "Non-trivial: the module contains at least one op with a custom print.")
@@ -204,6 +204,12 @@ def run(h, r):
     if module is None:
         h.discard("chunk_rejected")
         return
+    if r["kind"] == "sweep":
+        if not apply_sweep_mut(module, r["mut"]):
+            h.discard("variant_does_not_verify")
+            return
+        check_module(h, r, module, "sweep_" + r["mut"][0])
+        return
     if r["kind"] == "variant":
         kept = mutate(module, r.get("muts", []))
         if not kept:
@@ -218,6 +224,62 @@ def replay(h, recipe):
     run(h, recipe)
 
 
+def sweep_jobs(module):
+    """Deterministic single-point variants: for the first instance of every custom-format op name in
+    the module: add a discardable attribute, drop each attribute / property, set each property that has
+    a declared default to that default."""
+    seen = set()
+    jobs = []
+    from xdsl.ir import Operation
+    for pos, o in enumerate(module.walk()):
+        if o is module or o.name in seen or type(o).print is Operation.print:
+            continue
+        seen.add(o.name)
+        jobs.append(["add", pos, "extra"])
+        for k in sorted(o.attributes):
+            jobs.append(["drop_attr", pos, k])
+        for k in sorted(o.properties):
+            jobs.append(["drop_prop", pos, k])
+        get_def = getattr(type(o), "get_irdl_definition", None)
+        if get_def is not None:
+            for n, d in get_def().properties.items():
+                dv = getattr(d, "default_value", None)
+                if dv is not None and o.properties.get(n) != dv:
+                    jobs.append(["default", pos, n])
+    return jobs
+
+
+def apply_sweep_mut(module, mut) -> bool:
+    from xdsl.dialects.builtin import UnitAttr
+    kind, pos, key = mut
+    ops = list(module.walk())
+    if pos >= len(ops):
+        return False
+    o = ops[pos]
+    if kind == "add":
+        if key in o.attributes or key in o.properties:
+            return False
+        o.attributes[key] = UnitAttr()
+    elif kind == "drop_attr":
+        if key not in o.attributes:
+            return False
+        del o.attributes[key]
+    elif kind == "drop_prop":
+        if key not in o.properties:
+            return False
+        del o.properties[key]
+    elif kind == "default":
+        d = type(o).get_irdl_definition().properties[key]
+        o.properties[key] = d.default_value
+    else:
+        raise AssertionError(kind)
+    try:
+        module.verify()
+    except Exception:
+        return False   # not a valid instance: outside the domain
+    return True
+
+
 def checks(h):
     ch = corpus.chunks()
     keys = [(rel, idx) for rel, idx, _ in ch]
@@ -226,11 +288,19 @@ def checks(h):
         sel = [k for i, k in enumerate(keys) if (i + h.seed) % 4 == 0]
     else:
         sel = keys
+    done = set()
     for i, (rel, idx) in enumerate(sel):
         if i % h.nshards != h.shard:
             continue
-        run(h, {"kind": "corpus", "file": rel, "idx": idx})
-    mut = st.tuples(st.integers(0, 4), st.integers(0, 200), st.integers(0, 20)).map(list)
-    s_var = st.builds(lambda k, m: {"kind": "variant", "file": keys[k][0], "idx": keys[k][1], "muts": m},
-                      st.integers(0, len(keys) - 1), st.lists(mut, min_size=1, max_size=4))
-    h.hyp("variants", s_var, lambda r: run(h, r), h.scale(25, 2500), 1)
+        r = {"kind": "corpus", "file": rel, "idx": idx}
+        run(h, r)
+        module = load_chunk(r)
+        if module is None:
+            continue
+        for mut in sweep_jobs(module):
+            opname = list(module.walk())[mut[1]].name
+            key = (opname, mut[0], mut[2])
+            if key in done:      # one instance per (op name, mutation) and shard is enough
+                continue
+            done.add(key)
+            run(h, {"kind": "sweep", "file": rel, "idx": idx, "mut": mut})
